@@ -162,11 +162,11 @@ Proof.
 Qed.
 
 (* ---- the flow table meets the static conditions ---- *)
-Lemma handlers_fail_closed : forall r f, wf_flow f = true ->
-  fail_closed_prog (closed_answer f) (excused f) (handler r f) = true.
+Lemma handlers_fail_closed : forall r sv f, wf_flow f = true ->
+  fail_closed_prog (closed_answer f) (excused f) (handler r sv f) = true.
 Proof.
-  intros r f Hwf.
-  destruct r; destruct f as [c b|c|c m|c b m|c b|c|c| |c s w|c|c b b'|c|c|c t b|c v| | |];
+  intros r sv f Hwf.
+  destruct r, sv; destruct f as [c b|c|c m|c b m|c b|c|c| |c s w|c|c b b'|c|c|c t b|c v| | |];
     repeat match goal with
            | x : client |- _ => destruct x | x : bool |- _ => destruct x | x : rmode |- _ => destruct x
            | x : subj |- _ => destruct x | x : want |- _ => destruct x | x : revtok |- _ => destruct x
@@ -175,10 +175,10 @@ Proof.
     try discriminate Hwf; vm_compute; reflexivity.
 Qed.
 
-Lemma handlers_strict : forall r f, goes_on f = false -> strict (handler r f) = true.
+Lemma handlers_strict : forall r sv f, goes_on sv f = false -> strict (handler r sv f) = true.
 Proof.
-  intros r f Hn.
-  destruct r; destruct f as [c b|c|c m|c b m|c b|c|c| |c s w|c|c b b'|c|c|c t b|c v| | |];
+  intros r sv f Hn.
+  destruct r, sv; destruct f as [c b|c|c m|c b m|c b|c|c| |c s w|c|c b b'|c|c|c t b|c v| | |];
     repeat match goal with
            | x : client |- _ => destruct x | x : bool |- _ => destruct x | x : rmode |- _ => destruct x
            | x : subj |- _ => destruct x | x : want |- _ => destruct x | x : revtok |- _ => destruct x
@@ -187,10 +187,10 @@ Proof.
     try discriminate Hn; vm_compute; reflexivity.
 Qed.
 
-Lemma device_answers : forall r c off oid,
-  answers_with MGetDeviceAuthorizatonState device_err (handler r (FDeviceToken c off oid)).
+Lemma device_answers : forall r sv c off oid,
+  answers_with MGetDeviceAuthorizatonState device_err (handler r sv (FDeviceToken c off oid)).
 Proof.
-  intros r c off oid. destruct r, c, off, oid; cbv -[device_err];
+  intros r sv c off oid. destruct r, sv, c, off, oid; cbv -[device_err];
     repeat split; intros; try discriminate; reflexivity.
 Qed.
 
@@ -285,66 +285,66 @@ Proof.
   cbn [andb].
   destruct (answer (in_plan i) (in_prog i)) as [cls e cs] eqn:Ha. cbn [r_cls r_err r_creds].
   rewrite <- Ha. pose proof (not_excused i Hopen Hfail) as Hex.
-  destruct i as [r f w p]. cbn [in_flow in_plan in_prog] in *.
-  apply (fail_closed_run (closed_answer f) (excused f) (handler r f)).
+  destruct i as [r sv f w p]. cbn [in_flow in_plan in_prog] in *.
+  apply (fail_closed_run (closed_answer f) (excused f) (handler r sv f)).
   - apply handlers_fail_closed. exact Hwf.
   - exact Hhit.
   - exact Hex.
 Qed.
 
-Lemma fail_closed_prop : forall r f p, wf_flow f = true ->
-  hit p (handler r f) = true ->
-  (forall m kd, In (m, kd) (faults p (handler r f)) -> excused f m kd = false) ->
-  let a := answer p (handler r f) in
+Lemma fail_closed_prop : forall r sv f p, wf_flow f = true ->
+  hit p (handler r sv f) = true ->
+  (forall m kd, In (m, kd) (faults p (handler r sv f)) -> excused f m kd = false) ->
+  let a := answer p (handler r sv f) in
   (r_cls a = K302Err \/ r_cls a = K4xx \/ r_cls a = K5xx
    \/ (r_cls a = KInactive /\ is_introspection f = true))
   /\ (forall c, In c (r_creds a) -> forbidden c = false).
 Proof.
-  intros r f p Hwf Hhit Hex a. apply closed_answer_spec.
-  apply (fail_closed_run (closed_answer f) (excused f) (handler r f)); auto.
+  intros r sv f p Hwf Hhit Hex a. apply closed_answer_spec.
+  apply (fail_closed_run (closed_answer f) (excused f) (handler r sv f)); auto.
   apply handlers_fail_closed; exact Hwf.
 Qed.
 
 Lemma fail_closed_refuted_discovery :
   exists i, wf_input i = true /\ spec i (model i) = false.
-Proof. exists (Req RProvider FDiscovery false (PAt 1 (K BPlain false))). vm_compute. split; reflexivity. Qed.
+Proof. exists (Req RProvider SStd FDiscovery false (PAt 1 (K BPlain false))). vm_compute. split; reflexivity. Qed.
 
 Lemma fail_closed_refuted_revocation :
   exists i, wf_input i = true /\ spec i (model i) = false.
-Proof. exists (Req RLegacy (FRevoke Web2 RevAccess true) true (PMethod MKeySet (K BDeadline true))). vm_compute. split; reflexivity. Qed.
+Proof. exists (Req RLegacy SMin (FRevoke Web2 RevAccess true) true (PMethod MKeySet (K BDeadline true))). vm_compute. split; reflexivity. Qed.
 
 Lemma fail_closed_nonvacuous :
   exists i, wf_input i = true /\ open_finding i = false /\ hit (in_plan i) (in_prog i) = true.
-Proof. exists (Req RLegacy (FTokenCode Web2 true) true (PAt 6 (K (BOidc EAccessDenied false) false))). vm_compute. repeat split. Qed.
+Proof. exists (Req RLegacy SMax (FTokenCode Web2 true) true (PAt 6 (K (BOidc EAccessDenied false) false))). vm_compute. repeat split. Qed.
 
-Lemma device_mapping : forall r c off oid p kd rest,
-  faults p (handler r (FDeviceToken c off oid)) = (MGetDeviceAuthorizatonState, kd) :: rest ->
-  let a := answer p (handler r (FDeviceToken c off oid)) in
+Lemma device_mapping : forall r sv c off oid p kd rest,
+  faults p (handler r sv (FDeviceToken c off oid)) = (MGetDeviceAuthorizatonState, kd) :: rest ->
+  let a := answer p (handler r sv (FDeviceToken c off oid)) in
   r_cls a = K4xx /\ r_creds a = [] /\
   r_err a = if is_deadline kd then "slow_down" else "access_denied".
 Proof.
-  intros r c off oid p kd rest Hf a. subst a.
-  rewrite (answers_with_run _ _ _ (device_answers r c off oid) p kd rest Hf).
+  intros r sv c off oid p kd rest Hf a. subst a.
+  rewrite (answers_with_run _ _ _ (device_answers r sv c off oid) p kd rest Hf).
   repeat split.
 Qed.
 
 Lemma device_mapping_nonvacuous :
-  exists r c off oid p kd rest,
-    faults p (handler r (FDeviceToken c off oid)) = (MGetDeviceAuthorizatonState, kd) :: rest.
+  exists r sv c off oid p kd rest,
+    faults p (handler r sv (FDeviceToken c off oid)) = (MGetDeviceAuthorizatonState, kd) :: rest.
 Proof.
-  exists RProvider, Web, true, true, (PAt 2 (K BDeadline true)), (K BDeadline true), []. reflexivity.
+  exists RProvider, SMax, Web, true, true, (PAt 2 (K BDeadline true)), (K BDeadline true), []. reflexivity.
 Qed.
 
-Lemma journal_prefix_handlers : forall r f p,
-  let t := upto_fault (trace p (handler r f)) in
-  map fst t = firstn (List.length t) (journal PNone (handler r f)).
-Proof. intros r f p. apply journal_prefix. Qed.
+Lemma journal_prefix_handlers : forall r sv f p,
+  let t := upto_fault (trace p (handler r sv f)) in
+  map fst t = firstn (List.length t) (journal PNone (handler r sv f)).
+Proof. intros r sv f p. apply journal_prefix. Qed.
 
-Lemma journal_at_handlers : forall r f k kd, goes_on f = false ->
-  journal (PAt (S k) kd) (handler r f) = firstn (S k) (journal PNone (handler r f))
-  /\ hit (PAt (S k) kd) (handler r f) = (S k <=? List.length (journal PNone (handler r f))).
+Lemma journal_at_handlers : forall r sv f k kd, goes_on sv f = false ->
+  journal (PAt (S k) kd) (handler r sv f) = firstn (S k) (journal PNone (handler r sv f))
+  /\ hit (PAt (S k) kd) (handler r sv f) = (S k <=? List.length (journal PNone (handler r sv f))).
 Proof.
-  intros r f k kd Hn. split.
+  intros r sv f k kd Hn. split.
   - apply journal_at. apply handlers_strict. exact Hn.
   - apply hit_at.
 Qed.
@@ -357,7 +357,7 @@ Proof.
 Qed.
 
 (* the model has no state besides the storage: having served the request before changes nothing *)
-Lemma warm_irrelevant : forall r f p, model (Req r f true p) = model (Req r f false p).
+Lemma warm_irrelevant : forall r sv f p, model (Req r sv f true p) = model (Req r sv f false p).
 Proof. reflexivity. Qed.
 
 (* a failure that persists for every call of a method the fault-free run uses is reached *)
@@ -376,13 +376,13 @@ Proof.
       subst. rewrite (internal_method_dec_lb m m eq_refl) in Hb. discriminate Hb.
 Qed.
 
-Lemma persistent_failure : forall r f m kd, wf_flow f = true ->
-  In m (journal PNone (handler r f)) ->
+Lemma persistent_failure : forall r sv f m kd, wf_flow f = true ->
+  In m (journal PNone (handler r sv f)) ->
   open_pair f m = false -> documented_answer m kd = false ->
-  closed_answer f (answer (PMethod m kd) (handler r f)) = true.
+  closed_answer f (answer (PMethod m kd) (handler r sv f)) = true.
 Proof.
-  intros r f m kd Hwf Hin Hop Hdoc.
-  apply (fail_closed_run (closed_answer f) (excused f) (handler r f)).
+  intros r sv f m kd Hwf Hin Hop Hdoc.
+  apply (fail_closed_run (closed_answer f) (excused f) (handler r sv f)).
   - apply handlers_fail_closed; exact Hwf.
   - apply hit_method; exact Hin.
   - intros m' kd' Hf. destruct (faults_method _ _ _ _ _ Hf) as [Hm Hk]. subst.
